@@ -18,7 +18,7 @@ ASSUMPTIONS = ['core-domain inputs are exact doubles; wide formats use Python-in
                'ROUND of the reference model is trusted (cross-checked relationally by C05)']
 EXHAUSTIVE = False    # the whole quantifier is not enumerated; complete sub-domains are listed in EXHAUSTIVE_SUBDOMAINS
 EXHAUSTIVE_SUBDOMAINS = {'quick': ['quarter-LSB grid over 3x range, n_word<=6, all n_frac, 5 roundings, wrap'], 'thorough': ['same, n_word<=7']}
-REQUIRED_CLASSES = {'register-mixed:exact>53bits-coarser-target': 500, 'register-reduce:beyond-53-or-63-bits': 300, 'wrapped': 500, 'wide': 300, 'wide:nfrac<0': 100, 'shift-invariance': 300, 'register': 300, 'resign': 500}
+REQUIRED_CLASSES = {'fxp-source': 300, 'register-mixed:exact>53bits-coarser-target': 500, 'register-reduce:beyond-53-or-63-bits': 300, 'wrapped': 500, 'wide': 300, 'wide:nfrac<0': 100, 'shift-invariance': 300, 'register': 300, 'resign': 500}
 
 
 def wrap_ok(code, r, fmt):
@@ -61,6 +61,16 @@ def check_wrap(ctx, case):
     vs = [C.v_from_x4(x4, f) for x4 in x4s]
     sig = 'wrap/%s/%s' % (how, route)
     obj = np.array([float(v) for v in vs]) if how == 'array' else (int(vs[0]) if how == 'int' else float(vs[0]))
+    if how == 'fxp':
+        # the quarter-LSB value held exactly by another fixed-point object with two more fraction bits (same integer bits when the
+        # value lies inside the target's range): the rounding carry at the top of the range must wrap like any other input
+        x4 = int(x4s[0])
+        w_src = max(w + 2, x4.bit_length() + (1 if (s or x4 < 0) else 0))      # the narrowest word that holds it (same integer bits inside the range)
+        if w_src > 62:
+            how, sig = 'float', 'wrap/float/%s' % route
+        else:
+            ctx.cls('fxp-source')
+            obj = C.Fxp()(x4, bool(s or x4 < 0), w_src, f + 2, raw=True)
     n = len(vs) if how == 'array' else 1
     ok, res = ctx.guard(case, store, fmt, (rounding, 'wrap'), obj, route, '1d' if how == 'array' else 'scalar', n, (1, n), sig_prefix=sig + '/')
     ctx.ev()
@@ -357,7 +367,7 @@ def st_wrap_case(draw):
     fmt = draw(C.st_fmt())
     s, w, f = fmt
     lim = max(min(62, 53 + f) if f < 0 else 62, 2)
-    how = draw(st.sampled_from(['float', 'array', 'int', 'float']))
+    how = draw(st.sampled_from(['float', 'array', 'int', 'float', 'fxp']))
     n = draw(st.integers(1, 5)) if how == 'array' else 1
     m = 1 << w
     x4s = []
@@ -369,6 +379,10 @@ def st_wrap_case(draw):
             x4 = max(min(x4, cap), -cap)
         else:
             x4 = draw(C.st_x4(fmt, limit_bits=lim))
+        if how == 'fxp' and draw(st.booleans()):
+            # within one LSB of either end of the range: the rounding decides whether the code leaves the word
+            lo_, hi_ = M.rng(s, w)
+            x4 = draw(st.sampled_from([4 * hi_ + q for q in (1, 2, 3)] + [4 * lo_ - q for q in (1, 2, 3)]))
         x4 = C.clamp_sig_bits(x4, 53)
         if how == 'int':
             # integer carrier: v must be an integer
